@@ -288,9 +288,9 @@ pub fn property(ctx: &Ctx) -> Property {
         rule: "part stack: nested histories (depth <= 5) of push_clip_rect (inside, overlapping, disjoint, inverted, off-surface) and push_clip of quarter-grid polygons (exact coverage from the 4x4 model), quarter-pixel transform changes between pushes, with fill / fill_rect / mask / clear / draw_image_at draws (28 modes, all sources) after every change; after each draw every pixel is judged: outside any pushed rectangle unchanged; rect-only stacks bit-identical to the unclipped draw inside the intersection; with paths the compositor formula with clip coverage = product of all pushed path coverages (exact at 0 and full, +-(3+n)/255 otherwise). part order: the same 2-4 clips (clip rects and clip paths made of pixel-aligned rectangles, coverages exactly 0/255) pushed in two orders give bit-identical pixels for any draw. part noop: inserting balanced draw-free push..pop blocks changes no pixel. Non-trivial: a draw under live clips of both kinds, a draw after a pop, or an empty intersection of rectangles; distinct by hash of the case.",
         assumptions: vec!["clip paths are quarter-grid polygons under quarter-pixel translations so that their coverage is known exactly (curved clip paths: C08)", "layers inside clip histories are covered by C06"],
         parts: vec![
-            part("stack", 30_000, 800_000, move || strategy(&c1), check),
-            part("order", 15_000, 400_000, move || order_strategy(&c2), check_order),
-            part("noop", 10_000, 300_000, move || noop_strategy(&c3), check_noop),
+            part("stack", 100_000, 1_500_000, move || strategy(&c1), check),
+            part("order", 40_000, 600_000, move || order_strategy(&c2), check_order),
+            part("noop", 30_000, 500_000, move || noop_strategy(&c3), check_noop),
         ],
         min_class_fraction: vec![("stack", "rect-after-path", 0.05), ("stack", "path-after-rect", 0.05), ("stack", "depth>=3", 0.05), ("stack", "draw-after-pop", 0.2), ("stack", "judged:path-clip-formula", 0.2), ("order", "reordered", 0.4)],
         panic_is_violation: false,
